@@ -30,3 +30,27 @@ def spec_signature(key, impl, spec, lines):
     body = lines[1:-1]
     opname = body[step].split(' ')[2] if step < len(body) else '?'
     return 'bytefile:%s:%s->%s' % (opname, spec.split(':')[0], impl.split(':')[0])
+
+COQ_HEADER = '''From AF Require Import Lib.Bytes Lib.Path Lib.Ops Gen.Consts Model.MemFile Model.MemFs Model.Stack Model.Digest.
+Inductive vmcase := VF (i : N) (content : bytes) (spec : list (bool * bool)) (ops : list op) (d : N)
+                  | VC (i : N) (k : stack) (its : list item) (d : N).
+Definition vm_ok (c : vmcase) : bool :=
+  match c with
+  | VF _ content spec ops d => N.eqb (fcase_digest content spec ops) d
+  | VC _ k its d => N.eqb (case_digest k its) d
+  end.
+Definition vm_id (c : vmcase) : N := match c with VF i _ _ _ _ | VC i _ _ _ => i end.
+'''
+_ids = {}
+def coq_case(cid, lines, r):
+    t = lines[0].split(' ')
+    if cid not in r.get('D', {}) or len(lines) > 45:
+        return None
+    i = _ids.setdefault(cid, len(_ids))
+    if t[0] == 'fcase':
+        spec = coq_list(['(%s, %s)' % ('true' if h.startswith('r') else 'false', 'true' if h.endswith('c') and len(h) > 1 else 'false')
+                         for h in t[3].split(',')])
+        ops = [coq_op(l.split(' ')[2:]) for l in lines[1:-1]]
+        return 'VF %d%%N %s %s [%s] %s%%N' % (i, coq_bytes(t[2]), spec, ';\n  '.join(ops), r['D'][cid])
+    items = [coq_item(l) for l in lines[1:-1]]
+    return 'VC %d%%N %s [%s] %s%%N' % (i, coq_stack(t[2]), ';\n  '.join(items), r['D'][cid])
